@@ -1,6 +1,7 @@
 package scen
 
 import (
+	"bytes"
 	stdtls "crypto/tls"
 	"fmt"
 	"strings"
@@ -9,6 +10,7 @@ import (
 	tls "github.com/refraction-networking/utls"
 	"github.com/refraction-networking/utls/zz_verif/simnet"
 	"github.com/refraction-networking/utls/zz_verif/simrt"
+	"github.com/refraction-networking/utls/zz_verif/wire"
 )
 
 // C19: session resumption works and never breaks the next handshake.
@@ -17,7 +19,7 @@ func init() {
 	Register("C19", &Info{
 		Run:   runC19,
 		Quick: 6000, Thor: 300000,
-		Rule: "a world = a history of 2-6 connections over one ClientSessionCache: one fingerprint (session_ticket / pre_shared_key parrots, HelloGolang, any parrot by stratum; optionally a different fingerprint per connection, Roller style), one server (repository or std) at TLS 1.2 or 1.3 with stable ticket keys, optionally forcing HelloRetryRequest, two server names; faults between/inside connections: connection aborted at a drawn byte offset of the server's flight (only the cache and the server's ticket keys survive), client+server clock jump (hours to weeks, past the 7-day ticket lifetime), server ticket-key rotation, a flipped stored byte in the cached session's secret (that connection may fail, the next one may not); connections optionally call BuildHandshakeState explicitly (and SetClientRandom) before Handshake; oracle: (R1) every connection without an injected abort completes and echoes - a failed resumption attempt degrades to a full handshake; (R2) after a success to the same name with the same fingerprint, no rotation, clock advance < 6 days and the needed extension in the spec, the next connection resumes on both sides; (R4) a name with no earlier success is never offered a ticket or PSK; pre_shared_key last and hello well-formed (strict grammar); non-trivial = a later connection offered a ticket/PSK; distinct = (fingerprints, server, fault plan, names)",
+		Rule: "a world = a history of 2-6 connections over one ClientSessionCache: one fingerprint (session_ticket / pre_shared_key parrots, HelloGolang, any parrot by stratum; optionally a different fingerprint per connection, Roller style), one server (repository or std) at TLS 1.2 or 1.3 with stable ticket keys, optionally forcing HelloRetryRequest, two server names; faults between/inside connections: connection aborted at a drawn byte offset of the server's flight (only the cache and the server's ticket keys survive), client+server clock jump (hours to weeks, past the 7-day ticket lifetime), server ticket-key rotation, a flipped stored byte in the cached session's secret (that connection may fail, the next one may not); connections optionally call BuildHandshakeState explicitly (and SetClientRandom) before Handshake; oracle: (R1) every connection without an injected abort completes and echoes - a failed resumption attempt degrades to a full handshake; (R2) after a success to the same name with the same fingerprint, no rotation, clock advance < 6 days and the needed extension in the spec, the next connection resumes on both sides; (R4) a name with no earlier success is never offered a ticket or PSK; (R5) when a PSK is still offered in the second ClientHello after a HelloRetryRequest, that hello differs from the first only in key_share, cookie, padding and the PSK binder (same identity, same length, binder recomputed) and pre_shared_key stays last; pre_shared_key last and hello well-formed (strict grammar); non-trivial = a later connection offered a ticket/PSK; distinct = (fingerprints, server, fault plan, names)",
 		Assumptions: []string{"ticket lifetime boundary: resumption is required only when < 6 days passed since the oldest full handshake the cached session may descend from (since the last key rotation or failed resumption); no claim is made between 6 and 8 days",
 			"the TLS 1.3 NewSessionTicket is processed because every connection reads its echoed application data"},
 		Real: []string{"utls client and lruSessionCache from /repo", "utls or std server (real ticket sealing)"},
@@ -256,6 +258,16 @@ func runC19(c *Ctx) {
 					c.Probe("resumed-after-hrr")
 				}
 			}
+			// a second ClientHello after a HelloRetryRequest that still offers the session: same
+			// identity at the same place (last), binder of the same length but recomputed, and nothing
+			// else changed besides what RFC 8446 4.1.2 allows (key_share, cookie, padding)
+			if len(obs.CH) >= 2 && len(obs.CH[0].PSKIdentities) > 0 && len(obs.CH[1].PSKIdentities) > 0 {
+				c.Probe("psk-in-second-hello")
+				if d := pskHRRDiff(obs.CH[0], obs.CH[1]); d != "" {
+					c.Violate("psk-second-hello "+strings.SplitN(d, ":", 2)[0], "%s: %s", detail(), d)
+					break
+				}
+			}
 			// the session in the cache may descend from any earlier full handshake to this name since
 			// the last key rotation (a connection whose fingerprint carries no ticket extension stores
 			// nothing; an aborted connection may or may not have dropped the entry): the ticket
@@ -273,4 +285,53 @@ func runC19(c *Ctx) {
 	if c.R.Run%300 == 0 {
 		c.R.Sample = map[string]any{"history": plan, "peer": peerName(peer), "server_max": srvMax, "hrr": forceHRR}
 	}
+}
+
+// pskHRRDiff compares the two ClientHellos around a HelloRetryRequest when both offer a PSK.
+// It returns "" or "<class>: <detail>".
+func pskHRRDiff(a, b *wire.ClientHello) string {
+	if !bytes.Equal(a.Random, b.Random) || !bytes.Equal(a.SessionID, b.SessionID) || a.LegacyVersion != b.LegacyVersion ||
+		fmt.Sprint(a.CipherSuites) != fmt.Sprint(b.CipherSuites) || !bytes.Equal(a.Compression, b.Compression) {
+		return "header-changed: version/random/session id/suites/compression differ between CH1 and CH2"
+	}
+	seq := func(h *wire.ClientHello) []uint16 {
+		var ts []uint16
+		for _, e := range h.Extensions {
+			if e.Type != 21 && e.Type != 44 {
+				ts = append(ts, e.Type)
+			}
+		}
+		return ts
+	}
+	if fmt.Sprint(seq(a)) != fmt.Sprint(seq(b)) {
+		return fmt.Sprintf("extension-order: %v -> %v", seq(a), seq(b))
+	}
+	for _, e := range a.Extensions {
+		if e.Type == 21 || e.Type == 44 || e.Type == 51 || e.Type == 41 {
+			continue
+		}
+		if e2, ok := b.Ext(e.Type); ok && !bytes.Equal(e.Data, e2.Data) {
+			return fmt.Sprintf("extension-%d: body %x -> %x", e.Type, e.Data, e2.Data)
+		}
+	}
+	if i := b.ExtIndex(41); i != len(b.Extensions)-1 {
+		return fmt.Sprintf("psk-not-last: pre_shared_key at %d of %d in CH2", i, len(b.Extensions))
+	}
+	if len(a.PSKIdentities) != len(b.PSKIdentities) || len(a.PSKBinders) != len(b.PSKBinders) {
+		return fmt.Sprintf("identity-count: %d/%d identities, %d/%d binders", len(a.PSKIdentities), len(b.PSKIdentities), len(a.PSKBinders), len(b.PSKBinders))
+	}
+	for i := range a.PSKIdentities {
+		if !bytes.Equal(a.PSKIdentities[i].Identity, b.PSKIdentities[i].Identity) {
+			return fmt.Sprintf("identity-changed: identity %d differs between CH1 and CH2", i)
+		}
+	}
+	for i := range a.PSKBinders {
+		if len(a.PSKBinders[i]) != len(b.PSKBinders[i]) {
+			return fmt.Sprintf("binder-length: binder %d is %d then %d bytes", i, len(a.PSKBinders[i]), len(b.PSKBinders[i]))
+		}
+		if bytes.Equal(a.PSKBinders[i], b.PSKBinders[i]) {
+			return fmt.Sprintf("binder-not-recomputed: binder %d is identical in CH1 and CH2 although the transcript changed", i)
+		}
+	}
+	return ""
 }
